@@ -399,3 +399,50 @@ func H_C03_MapPadding() {
 	vrt.TraceBool("done", true)
 	vrt.Reach("mappadding/end")
 }
+
+// vFirstByteMapper is a user-supplied mapper that is not injective: every key goes to the slot of its first byte.
+type vFirstByteMapper struct{}
+
+func (vFirstByteMapper) MapBytes(data []byte) [1]byte {
+	if len(data) == 0 {
+		return [1]byte{}
+	}
+	return [1]byte{data[0]}
+}
+
+// H_C03_MapLossyMapper: the map index with a mapper under which several written keys of the same length share a
+// slot still answers Get and Contains for each of them, and for an absent key of that slot and length.
+func H_C03_MapLossyMapper() {
+	fs := vEnv()
+	defer fs.Cleanup()
+	dir := fs.Path("t")
+	fs.MkdirAll(dir)
+	x := vrt.Byte("x")
+	keys := [][]byte{{x, 1}, {x, 2}, {x, 3}}
+	absent := vrt.Choose("absent", 4) // 3: all three are written
+	var wk, wv [][]byte
+	for i, k := range keys {
+		if i != absent {
+			wk = append(wk, k)
+			wv = append(wv, []byte{byte(10 + i)})
+		}
+	}
+	vWriteTable(dir, wk, wv, recordio.CompressionTypeSnappy, recordio.CompressionTypeNone, 64)
+	r, err := NewSSTableReader(ReadBasePath(dir), ReadBufferSizeBytes(16),
+		ReadIndexLoader(&MapKeyIndexLoader[[1]byte]{ReadBufferSize: 16, Mapper: vFirstByteMapper{}}))
+	vrt.Assert(err == nil, "lossymapper/open-no-error")
+	for i, k := range keys {
+		c, cerr := r.Contains(k)
+		got, gerr := r.Get(k)
+		if i == absent {
+			vrt.Assert(cerr == nil && !c, "lossymapper/absent-key-not-contained")
+			vrt.Assert(errors.Is(gerr, NotFound), "lossymapper/absent-key-not-found")
+		} else {
+			vrt.Assert(cerr == nil && c, "lossymapper/written-key-is-contained")
+			vrt.Assert(gerr == nil && vrt.EqBytes(got, []byte{byte(10 + i)}), "lossymapper/written-key-has-its-own-value")
+		}
+	}
+	r.Close()
+	vrt.TraceBool("done", true)
+	vrt.Reach("lossymapper/end")
+}
